@@ -274,6 +274,28 @@ def r3_bound_presence(chk: Check) -> None:
         chk.undecided("C03.R3", "<discovery>", f"sites={n}", "fewer bound-presence tests than confirmed by hand")
 
 
+# only keywords whose "absent" arm produces values that IGNORE the keyword: with `example` / `default` a truthiness test
+# merely omits one extra positive value, with the bounds the arm taken on 0 yields a generic valid value (triaged on the
+# pinned tree: 11 such sites, none of them mislabels anything); numeric bounds next to comparisons are C03.R3
+VALUE_KEYS = {"const"}
+
+
+def r3b_value_presence(chk: Check) -> None:
+    from . import shared
+
+    P = chk.project
+
+    def lookup(c: ast.Call) -> str | None:
+        if last_attr(c) == "get" and c.args and const_str(c.args[0]) in VALUE_KEYS:
+            return f"the schema's `{const_str(c.args[0])}`"
+        return None
+
+    shared.presence_not_truthiness_rule(
+        chk, "C03.R3b", [f for f in P.module(COV).functions.values()], lookup,
+        "PRESENCE-NOT-TRUTHINESS(`const`): `const: false`, `const: 0`, `const: ''`, `const: []` are legal and fix the value; a local bound to `schema.get('const'…)` is tested with `is None` / a sentinel / `in`, never used as a truth value - otherwise the keyword is treated as absent, the type-specific generators run and yield values the schema forbids under a POSITIVE label",
+        "a falsy value of the keyword is treated as 'keyword absent' - e.g. `{type: boolean, const: false}` yields `True` as 'Valid boolean value', `{const: 0, minimum: 0, maximum: 10}` yields 1, 9, 10 as positive boundary values", 1)
+
+
 def _producer_heads(P: Project) -> list[str]:
     heads = []
     for rel in (BUILDER, COV):
@@ -445,4 +467,4 @@ def r7_merged_pattern_width_checked(chk: Check) -> None:
 
 
 def rules(tier: str) -> list:  # type: ignore[type-arg]
-    return [r1_label_source, r2_yield_discipline, r3_bound_presence, r4_description_protocol, r5_documented_methods, r6_floor_arithmetic, rfwd_forwarding, r7_merged_pattern_width_checked]
+    return [r1_label_source, r2_yield_discipline, r3_bound_presence, r3b_value_presence, r4_description_protocol, r5_documented_methods, r6_floor_arithmetic, rfwd_forwarding, r7_merged_pattern_width_checked]
